@@ -185,9 +185,37 @@ func (g *G) Str(d int) Expr {
 	return g.maybeParen(&Bin{Op: "+", L: g.Str(d - 1), R: g.Str(d - 1)})
 }
 
+// nearPair builds a comparison of two integers that differ by at most one and sit at a
+// boundary (incl. beyond +-2^53, where float64 cannot tell them apart): literals, calls
+// and arithmetic that reaches the value.
+func (g *G) nearPair() Expr {
+	v := I64Pool[g.R.Intn(len(I64Pool))]
+	if g.R.Intn(2) == 0 {
+		v = -v
+	}
+	mk := func(x int64) Expr {
+		l := &Lit{V: x, Text: strconv.FormatInt(x, 10)}
+		switch g.R.Intn(4) {
+		case 0:
+			if !g.NoCalls {
+				return &CallE{Name: "idn", Args: []Expr{l}}
+			}
+		case 1:
+			// reach x by arithmetic from x-1 (wrapping is part of the reference semantics)
+			return &Bin{Op: "+", L: &Lit{V: x - 1, Text: strconv.FormatInt(x-1, 10)}, R: &Lit{V: int64(1), Text: "1"}}
+		}
+		return l
+	}
+	w := v + int64(g.R.Intn(3)-1)
+	return &Bin{Op: cmpOps[g.R.Intn(6)], L: mk(v), R: mk(w)}
+}
+
 func (g *G) Bool(d int) Expr {
 	if d <= 0 || g.R.Intn(6) == 0 {
 		return g.BoolLeaf()
+	}
+	if g.R.Intn(6) == 0 {
+		return g.nearPair()
 	}
 	switch g.R.Intn(10) {
 	case 0, 1, 2, 3:
